@@ -55,7 +55,11 @@ func genFastaList(r *rand.Rand) []*fasta.Fasta {
 				l = r.IntN(200)
 			}
 		}
-		recs = append(recs, genFastaRecord(r, l))
+		rec := genFastaRecord(r, l)
+		if r.IntN(25) == 0 {
+			rec.Name = randBytesExcl(r, longSize(r), fastaNameExcl) // name longer than the I/O buffers
+		}
+		recs = append(recs, rec)
 	}
 	return recs
 }
@@ -231,7 +235,9 @@ func fastaDecodeCompare(k *K, what string, recs []*fasta.Fasta, text []byte) {
 func fastaListString(recs []*fasta.Fasta) string {
 	s := fmt.Sprintf("%d records:", len(recs))
 	for _, r := range recs {
-		if len(r.Sequence) > 120 {
+		if len(r.Name) > 200 {
+			s += fmt.Sprintf(" {namelen=%d seqlen=%d}", len(r.Name), len(r.Sequence))
+		} else if len(r.Sequence) > 120 {
 			s += fmt.Sprintf(" {name=%q seqlen=%d}", r.Name, len(r.Sequence))
 		} else {
 			s += fmt.Sprintf(" {name=%q seq=%q}", r.Name, r.Sequence)
